@@ -32,6 +32,7 @@ CONSTANTS
     MaxInits,    \* number of initialize commands explored
     AllowFaults, \* BOOLEAN: may handlers raise
     StratOps,    \* subset of {0, 1}: strategies a handler may switch to (0 continue, 1 pause)
+    HStopOps,    \* TRUE: handlers may call stop()
     EndRepOps,   \* BOOLEAN: a handler may call end_replication() as its last operation (run mode only)
     MaxCmds,     \* commands (accepted or refused) explored per behaviour
     Cmds         \* which commands a configuration explores (Initialize is always explored)
@@ -77,13 +78,15 @@ OpSet(n) ==
   \cup [k : {"cancel"}, a : 1..n, p : {0}]
   \cup [k : {"strat"}, a : StratOps, p : {0}]      \* set_error_strategy: 0 = continue, 1 = pause
   \cup (IF EndRepOps THEN [k : {"endrep"}, a : {0}, p : {0}] ELSE {})
+  \cup (IF HStopOps THEN [k : {"hstop"}, a : {0}, p : {0}] ELSE {})       \* the handler calls stop(): accepted, the run pauses after this event
 OpSeqs(n) == UNION {[1..k -> OpSet(n)] : k \in 0..MaxOps}
 NSched(ops) == Cardinality({i \in 1..Len(ops) : ops[i].k \in SchedKinds})
 EndsRep(ops) == ops # <<>> /\ ops[Len(ops)].k = "endrep"
+StopsRun(ops) == \E j \in 1..Len(ops) : ops[j].k = "hstop"
 Handlers(n) == {h \in [ops : OpSeqs(n), raise : IF AllowFaults THEN BOOLEAN ELSE {FALSE}] :
                    /\ NSched(h.ops) <= MaxId - n
                    /\ \A j \in 1..Len(h.ops) - 1 : h.ops[j].k # "endrep"      \* end_replication() only as the last operation
-                   /\ (EndsRep(h.ops) => ~h.raise)}
+                   /\ (EndsRep(h.ops) => ~h.raise /\ ~StopsRun(h.ops))}
 
 (* effect of one operation list at clock clk on (E, P); res[i] = new id, 0 = refused, -1 = cancel *)
 RECURSIVE ApplyOps(_, _, _, _)
@@ -162,7 +165,7 @@ InitializeWith(iops) ==
 
 Initialize == \E iops \in IF initOps = Unset
                           THEN {s \in OpSeqs(0) : /\ NSched(s) <= MaxId - 1
-                                                   /\ \A i \in 1..Len(s) : s[i].k \notin {"strat", "reinit", "endrep", "hstart", "hrun", "hstep"}}
+                                                   /\ \A i \in 1..Len(s) : s[i].k \notin {"strat", "reinit", "endrep", "hstart", "hrun", "hstep", "hstop"}}
                           ELSE {initOps} : InitializeWith(iops)
 
 CanStart == rs \in {"INITIALIZED", "STOPPED"} /\ rep \in {"INITIALIZED", "STARTED"} /\ clock < EndT
@@ -247,8 +250,8 @@ ExecNextWith(h) ==
                             res |-> r.res, raise |-> h.raise]
                /\ strat' = StratAfter(h.ops, strat)
                /\ (EndsRep(h.ops) => mode = "run")
-               /\ IF h.raise /\ strat' = "pause" /\ mode = "run"
-                  THEN \* fault pause: the segment ends right after the failing event
+               /\ IF ((h.raise /\ strat' = "pause") \/ StopsRun(h.ops)) /\ mode = "run"
+                  THEN \* fault pause, or stop() called by the handler: the segment ends right after this event
                        /\ rs' = "STOPPED" /\ mode' = "none"
                        /\ due' = <<[ty |-> "STOP", ts |-> ev[m].t]>>
                   ELSE /\ due' = (IF EndsRep(h.ops) THEN <<[ty |-> "ENDREQ", ts |-> 0]>> ELSE <<>>)
